@@ -74,7 +74,30 @@ def pathTo (key : String) (bad : List Nat) : String :=
 
 def isFn (fn : String) : Bool := fn == "nonce128" || fn == "nonce256" || fn == "dh_b" || fn == "srp_a"
 
+/-- one call of a history: `n128 | n256 | srp | gab.<g>.<dh_prime hex, non-zero>.<g_a hex | ->` -/
+def preludeTokenOk (t : String) : Bool :=
+  if t == "n128" || t == "n256" || t == "srp" then true else
+  match t.splitOn "." with
+  | ["gab", g, p, ga] =>
+    (match g.toInt? with
+     | some v => decide (-2147483648 ≤ v ∧ v ≤ 2147483647) && !g.startsWith "+"
+     | none => false) &&
+    (match fromHex? p with
+     | some bs => !bs.isEmpty && bs.any (· != 0)
+     | none => false) &&
+    (ga == "-" || (match fromHex? ga with | some bs => !bs.isEmpty | none => false))
+  | _ => false
+
+def preludeOk (s : String) : Bool := s == "-" || (s.splitOn ",").all preludeTokenOk
+
 def handle : List String → String
+  -- earlier calls with unusual parameters, then ordinary draws: a generator whose every path ends in crypto/rand
+  -- and that keeps no state reads the full width from the OS source each time ("full" is also the line the Go
+  -- side prints when the later draws are as wide and as fresh as the first)
+  | ["c19.hist", fn, prelude, n] =>
+    match n.toNat? with
+    | some k => if isFn fn && preludeOk prelude && 2 ≤ k && k ≤ 64 then verdict fn "full" "short" else "bad-op"
+    | none => "bad-op"
   | ["c19.secret", fn, k] =>
     if isFn fn && k.toNat?.isSome then verdict fn "fresh" "predictable" else "bad-op"
   | ["c19.hs", k] => if k.toNat?.isSome then verdict "wire_nonce" "fresh" "predictable" else "bad-op"
